@@ -35,6 +35,9 @@ pub struct IoState {
     pub shutdown: bool,
     pub reads: Vec<usize>,
     pub write_cap: usize,
+    /// reads answered with end-of-stream so far; a reader that keeps asking is cut off with an error
+    pub eof_reads: usize,
+    pub eof_loop: bool,
 }
 
 #[derive(Clone)]
@@ -64,6 +67,12 @@ impl AsyncRead for ScriptIo {
             return Poll::Ready(Ok(()));
         }
         if s.eof_now || s.closed {
+            s.eof_reads += 1;
+            if s.eof_reads > 5000 {
+                // somebody polls for more in a loop although the stream has ended: break the loop
+                s.eof_loop = true;
+                return Poll::Ready(Err(std::io::Error::other("harness: read polled endlessly after the end of the stream")));
+            }
             return Poll::Ready(Ok(()));
         }
         s.read_waker = Some(cx.waker().clone());
@@ -139,6 +148,8 @@ pub struct Transcript {
     pub bytes: Vec<u8>,
     pub finished: Option<bool>, // Some(true)=Ok, Some(false)=Err, None=never finished
     pub reads: Vec<usize>,
+    /// the server kept polling for more after the end of the stream (cut off after 5000 reads)
+    pub eof_loop: bool,
 }
 
 /// Run one server connection over the scripted input; returns everything the server wrote.
@@ -211,7 +222,7 @@ pub fn run_server(flavour: Flavour, chunks: Vec<(Vec<u8>, bool)>, eof_now: bool)
     });
     drop(rt);
     let s = state.lock().unwrap();
-    Transcript { bytes: s.written.clone(), finished, reads: s.reads.clone() }
+    Transcript { bytes: s.written.clone(), finished, reads: s.reads.clone(), eof_loop: s.eof_loop }
 }
 
 // ------------------------------------------------------------------------------------------------
@@ -447,6 +458,12 @@ impl Engine for SniffEngine {
         let whole = run_server(Flavour::Auto, single.clone(), c.eof_now);
         let plain = run_server(if is_h2 { Flavour::PlainH2 } else { Flavour::PlainH1 }, single, c.eof_now);
 
+        if cut.eof_loop || whole.eof_loop {
+            rep.violate(
+                "C08/reader-polled-endlessly-after-end-of-stream",
+                format!("{c:?}: the auto-detecting connection read past the end of the client's bytes more than 5000 times in a row ({})", if cut.eof_loop { "fragmented delivery" } else { "delivery in one piece" }),
+            );
+        }
         let n_cut = normalise(&cut.bytes);
         let n_whole = normalise(&whole.bytes);
         let n_plain = normalise(&plain.bytes);
@@ -576,6 +593,19 @@ pub fn strategy() -> impl proptest::strategy::Strategy<Value = SniffCase> {
                 proptest::collection::vec(any::<u8>(), 0..40),
             ]).prop_map(|(n, then)| StreamSpec::Prefix { n, then }),
         1 => proptest::collection::vec(any::<u8>(), 0..64).prop_map(StreamSpec::Raw),
+        // preface look-alikes: a complete HTTP/2 opening whose preface differs in one place - a letter
+        // in the other case, a byte off by one, two neighbours swapped, a bit flipped. Not the preface.
+        2 => (0usize..24, 0u8..4, any::<bool>(), 0u8..4).prop_map(|(pos, how, post, path)| {
+            let mut bytes = render(&StreamSpec::H2 { post, path, body: 0, extra_settings: false });
+            let b = bytes[pos];
+            match how {
+                0 if b.is_ascii_alphabetic() => bytes[pos] = b ^ 0x20,
+                1 => bytes[pos] = b.wrapping_add(1),
+                2 if pos + 1 < 24 && bytes[pos + 1] != b => bytes.swap(pos, pos + 1),
+                _ => bytes[pos] = b ^ 0x01,
+            }
+            StreamSpec::Raw(bytes)
+        }),
     ];
     let cuts = prop_oneof![
         2 => proptest::collection::vec(1u8..=32, 0..8),
